@@ -124,11 +124,20 @@ inductive Outcome (α : Type) where
   | raise
 deriving DecidableEq, Repr
 
-/-- `ModelicaMixin.history` for a *state*: a fixed start is the value at `t0` -/
+/-- the value stored for a fixed start `x`: a plain number as it is, an `MX` through `python_type`
+    (the same thing for a Real, which every state is) -/
+def startCast (d : Decl) (x : EVal) : EVal :=
+  match d.start with
+  | .lit _ false => x
+  | _ => cast d.ptype x
+
+/-- `ModelicaMixin.history` for a *state*: a fixed start is the value at `t0`
+    (a plain number is stored as it is, an `MX` goes through `python_type`) -/
 def historyOf (env : Env) (d : Decl) : Outcome EVal :=
   if d.fixed then
     match d.start with
-    | .lit x _ => .put (cast d.ptype x)
+    | .lit x false => .put x
+    | .lit x true => .put (cast d.ptype x)
     | s =>
       match s.resolve env with
       | .val x => .put (cast d.ptype x)
@@ -166,6 +175,21 @@ def envOf (envs : Nat → Env) (u : Use) (member : Nat) : Env :=
   | .nominal => envs 0
   | .history => envs member
   | .seed => envs member
+
+/-- the pymoca variable lists -/
+inductive VarList where
+  | states
+  | algs
+  | inputs
+deriving DecidableEq, Repr
+
+/-- which variables each method runs over: bounds and nominals for all states, algebraics and
+    inputs; initial conditions from fixed starts for states only; seeds for states and algebraics -/
+def scopeOf : Use → List VarList
+  | .bounds => [.states, .algs, .inputs]
+  | .nominal => [.states, .algs, .inputs]
+  | .history => [.states]
+  | .seed => [.states, .algs]
 
 /-! ## parameters and outputs -/
 
